@@ -217,7 +217,11 @@ def date_configs(tier, seed):
             pairs.append((f, variant(f, 'dd', 'mm')))
             pairs.append((variant(f, 'dd', 'm'), variant(f, 'd', 'mm')))
     lists += pairs if tier != 'quick' else pairs[::3]
-    cfgs = [meta_config('dates', [], 0, fmtlists=lists, cands=cands, exts=(False, True) if tier != 'quick' else (False,))]
+    if tier == 'quick':
+        cfgs = [meta_config('dates', [], 0, fmtlists=lists, cands=cands, exts=(False,))]
+    else:
+        # TLC builds the set of initial states in one piece (limit 1 000 000): the format lists are spread over several instances
+        cfgs = [meta_config('dates-%d' % (i // 25), [], 0, fmtlists=lists[i:i + 25], cands=cands, exts=(False, True)) for i in range(0, len(lists), 25)]
     if tier == 'quick':
         # is_extensible=True on a selection of the lists (all of them in the thorough tier)
         cfgs.append(meta_config('dates-extensible', [], 0, fmtlists=lists[1:len(lists):4] + [tuple(fmts)], cands=cands, exts=(True,)))
